@@ -544,6 +544,10 @@ pub fn t(id: i64, r: Res) -> Res {
     exit(id, r.snap());
     r
 }
+/// `lazy_branches(false)` with threads: the value of the branch expression is the job the thread runs
+pub fn job(id: i64, r: Res) -> impl FnOnce() -> Res + Send + 'static {
+    move || t(id, r)
+}
 /// `??` on Result
 pub fn i(id: i64, r: &Res) {
     let _q = Quiet::new();
